@@ -31,9 +31,19 @@ inline const char* oname(Outcome o)
 
 inline thread_local std::string g_last_abort_msg;
 
+// Locals that the library leaves uninitialised (and a defect then hands over) would otherwise hold whatever earlier
+// calls left on the stack, which differs between a worker and the fresh replay process: give them a fixed content.
+__attribute__((noinline)) inline void stack_poison()
+{
+  volatile char area[16384];
+  memset((void*)area, 0xA5, sizeof area);
+  asm volatile("" ::: "memory");
+}
+
 template<typename F>
 inline Outcome attempt(F&& f)
 {
+  stack_poison();
   try {
     f();
     return OK;
